@@ -129,7 +129,15 @@ def r2_r3_name_digest(ctx):
                       f"node with inputs parent1 (default output) and parent2.out7: hashed string = {k[:200]}; it must contain the payload and the name of every input "
                       f"including the output name for non-default outputs")
     else:
-        ctx.ok("C14.R3", loc(ni), "digest covers the payload and every input (parent name, output name)")
+        # the input names must reach the hashed text through Python's own text of a list / tuple / str (complete by construction), not through
+        # the __str__ of a foreign container (numpy abbreviates arrays of more than 1000 elements to 'a b c ... x y z')
+        foreign = [x for x in subterms(hashed) if isinstance(x, App) and x.fname.split(".")[0] in ("numpy", "np", "pandas", "xarray") and ("parent1" in vkey(x))]
+        if foreign:
+            ctx.violation("C14.R3", ni.qual, loc(ni), "inputs enter the digest completely",
+                          f"the input names are formatted into the hashed text through {foreign[0].fname}(...): its text form abbreviates long sequences, so two nodes with "
+                          f"more than 1000 inputs that differ only in a middle input get the same name")
+        else:
+            ctx.ok("C14.R3", loc(ni), "digest covers the payload and every input (parent name, output name)")
 
 
 def r4_sources(ctx):
@@ -150,6 +158,16 @@ def r4_sources(ctx):
             ctx.violation("C14.R4", fi.qual, loc(fi), "unique source names",
                           f"two sources whose payload name is 'src' are named {[vkey(x)[:60] for x in names]}; the second must get a suffix derived from its index "
                           f"(equal source names collide in any union / lowering by name)")
+            return
+        # the suffix must be an injective text of the index: the tuple's own str()/repr() is; its components glued together without a
+        # separator are not ((1, 10) and (11, 0) both give '110')
+        from ..terms import subterms
+        glued = [x for x in subterms(names[1]) if isinstance(x, App) and x.fname in ("str.join", "join") and x.args and isinstance(x.args[0], str)
+                 and (x.args[0] == "" or x.args[0].isdigit()) and "multi_index" in vkey(x)]
+        if glued:
+            ctx.violation("C14.R4", fi.qual, loc(fi), "index suffix is injective",
+                          f"the suffix of a repeated source name is built as {vkey(glued[0])[:120]}: the components of the multi-index are concatenated without a separator, "
+                          f"so cells (1, 10) and (11, 0) get the same name — two different sources collapse into one node name")
             return
     if not checked:
         ctx.undecided("C14.R4", loc(fi), "from_source: could not observe two source nodes")
